@@ -1564,7 +1564,7 @@ func (ex *Exec) doRange(fr *Frame, st *State, x *ssa.Range) {
 	st.assume(implies(eq(m.T, "0"), eq(n, "0")))
 	// enumeration axioms
 	st.assume(fmt.Sprintf("(forall ((j Int)) (! (=> (and (<= 0 j) (< j %s)) (and (select %s (rangeKey %s j)) (= (rangeIdx %s (rangeKey %s j)) j))) :pattern ((rangeKey %s j))))", n, dom, it, it, it, it))
-	st.assume(fmt.Sprintf("(forall ((k Str)) (! (=> (select %s k) (and (<= 0 (rangeIdx %s k)) (< (rangeIdx %s k) %s) (= (rangeKey %s (rangeIdx %s k)) k))) :pattern ((rangeIdx %s k))))", dom, it, it, n, it, it, it))
+	st.assume(fmt.Sprintf("(forall ((k Str)) (! (=> (select %s k) (and (<= 0 (rangeIdx %s k)) (< (rangeIdx %s k) %s) (= (rangeKey %s (rangeIdx %s k)) k))) :pattern ((rangeIdx %s k)) :pattern ((select %s k))))", dom, it, it, n, it, it, it, dom))
 	st.vals[x] = SVal{Tup: []SVal{{T: it}, {T: m.T}, {T: n}}}
 	// position counter lives in a per-path ghost cell
 	st.vals[rangePos{x}] = SVal{T: "0"}
